@@ -22,7 +22,7 @@ def generate(rng, n, tier, stats):
     while len(cases) < n:
         if rng.random() < 0.1:
             nd = rng.randint(1, 4)
-            a = rand_array(rng, stats=stats, dtype='f', ndim=nd, lens=[rng.randint(1, 4) if nd < 3 else rng.randint(2, 3) for _ in range(nd)], attrs=True)
+            a = rand_array(rng, stats=stats, dtype=rng.choice(['f', 'f', 'i']), ndim=nd, lens=[rng.randint(1, 4) if nd < 3 else rng.randint(2, 3) for _ in range(nd)], attrs=True)    # (integer data: the percentiles are floats, as NumPy gives)
             i = rng.randrange(nd)
             q = rng.choice([50, 25, [25, 50], [0, 100, 50]])
             stats['function']['percentile'] += 1
